@@ -857,7 +857,12 @@ impl Edges {
         // TODO(zanieb): We need to make sure this is performant, repeated unions like this do not
         // seem efficient.
         for version in versions {
-            range = range.union(&Ranges::singleton(normalize_version(version)));
+            // Like version specifiers, `in` lists match on the release segments only, see
+            // `normalize_specifier`. Otherwise a pre-release in the list would produce a marker
+            // that cannot be written as text: `python_full_version in '3.9.0b1'` is rendered as
+            // `python_full_version == '3.9b1'`, which means `== 3.9` when parsed.
+            let release = Version::new(strip_trailing_zeros(version.release()));
+            range = range.union(&Ranges::singleton(release));
         }
 
         if negated {
